@@ -473,7 +473,17 @@ def curve_antenna(draw, env_kinds=('free', 'ideal'), nsrc=(1, 2), src_form='any'
         objs.append(arc)
         info['arc'] = shape
         pts = rgeo.arc_points(arc)
-        if attach and shape == 'open':
+        if attach and shape == 'open' and span >= 90.0 and draw(st.integers(0, 3)) == 0:
+            # the chord closes the arc: a loop of two objects, each joining the other with both ends
+            L_ = float(np.linalg.norm(pts[-1] - pts[0]))
+            nn = max(1, int(round(L_ / (sl * lam))))
+            w = dict(type='wire', n=nn, p1=[float(x) for x in pts[0]], p2=[float(x) for x in pts[-1]], r=r6(r * lam),
+                     tag=None, taper=0, tmin=None, tmax=None)
+            if draw(st.booleans()):
+                w['p1'], w['p2'] = w['p2'], w['p1']
+            wires_after.append(w)
+            info['arc'] = 'open+chord'
+        elif attach and shape == 'open':
             for e in draw(st.sampled_from([[], [0], [-1], [0, -1]])):
                 nn = draw(st.integers(1, 5))
                 s2 = sl * draw(st.sampled_from([1.0, 0.7, 1.4]))
